@@ -5,7 +5,7 @@ A spec shares no code with sismic.model: it is plain data on which the reference
 """
 import re
 
-NAME_POOL = [a + b for a in 'kqzmbxtdhgrw' for b in 'aeiou']
+NAME_POOL = [a + b for a in 'kqzmbxtdhgrwcfjlnpsv' for b in 'aeiou']
 EVENTS = ['ea', 'eb', 'ec', 'ed']
 
 HIST = ('shallow', 'deep')
@@ -211,9 +211,14 @@ def gen_spec(st, cfg):
     pool = list(NAME_POOL)
 
     def fresh():
+        if not pool:        # very large charts: fall back to generated names (still unique, still 2+ letters)
+            extra[0] += 1
+            return 'y%02d' % extra[0]
         return pool.pop(st.choice(len(pool)))
+    extra = [0]
 
     budget = [st.int(2, max(2, cfg.max_states)) - 1]
+    gadget_moves = []
 
     def grow(n, depth):
         s = sp.states[n]
@@ -232,11 +237,26 @@ def gen_spec(st, cfg):
                     kinds.append(('final', 1))
                 c = sp.add(fresh(), st.weighted(kinds), n)
                 grow(c.name, depth + 1)
+            if cfg.force_history and cfg.orthogonal and depth + 2 <= max(cfg.max_depth, 4) and st.flag(1, 5):
+                # gadget: orthogonal content with several two-state regions below a history parent, so that a
+                # remembered sub-configuration holds many states of equal depth
+                o = sp.add(fresh(), 'orthogonal', n)
+                for _ in range(st.int(2, 3)):
+                    reg = sp.add(fresh(), 'compound', o.name)
+                    k1 = sp.add(fresh(), 'basic', reg.name)
+                    k2 = sp.add(fresh(), 'basic', reg.name)
+                    reg.initial = k1.name
+                    gadget_moves.append((k1.name, k2.name))
             nonhist = list(s.children)
             s.initial = st.pick(nonhist)
             if cfg.history and (cfg.force_history or st.flag(3, 8)):
-                h = sp.add(fresh(), st.pick(['shallow', 'deep']), n)
+                hk = st.pick(['shallow', 'deep'])
+                h = sp.add(fresh(), hk, n)
                 h.memory = st.pick(nonhist)
+                if cfg.force_history and st.flag(1, 4):
+                    # a compound state may own a shallow and a deep history state at the same time
+                    h2 = sp.add(fresh(), 'deep' if hk == 'shallow' else 'shallow', n)
+                    h2.memory = st.pick(nonhist)
         elif s.kind == 'orthogonal':
             for _ in range(st.int(1, 3)):
                 budget[0] -= 1
@@ -292,6 +312,8 @@ def gen_spec(st, cfg):
         prio = st.pick([0, 0, 0, 1, -1, 2, -2]) if cfg.priorities else 0
         tr = Tr(len(sp.trans), s, t, ev, prio, guard)
         sp.trans.append(tr)
+    for a, b in gadget_moves:
+        sp.trans.append(Tr(len(sp.trans), a, b, st.pick(events), 0, False))
     if cfg.force_history:
         # gadgets: moves inside the history parent, a way out and a way back in through the history state
         for h in hist_names:
@@ -495,11 +517,11 @@ def _trans_obj(model, t, with_old=True):
 PREAMBLE = 'v = 0\nw = []'
 
 
-def build_api(sp, order=None, name='gen'):
+def build_api(sp, order=None, name='gen', preamble=None):
     """Materialise through add_state/add_transition.  `order`: a Stream permuting the call order
     (parents still before children) or None for creation order."""
     from sismic import model
-    sc = model.Statechart(name, preamble=PREAMBLE)
+    sc = model.Statechart(name, preamble=preamble or PREAMBLE)
     pending = list(sp.states)
     added = set()
     while pending:
